@@ -254,6 +254,10 @@ def run(ctx):
     table(ctx, 'ROUTE', 'SolarDay::get_index_in_year', doy_dom(1582) + doy_dom(2024) + doy_dom(1900), lambda x: py(t.m(cm.solar_day(*x), 'get_index_in_year')), lambda x: CAL.jdn(*x) - CAL.jdn(x[0], 1, 1),
           'day-of-year = days since January 1 (every day of 1582, 1900, 2024)', str, fn_site(p, 'SolarDay::get_index_in_year'))
 
+    if ctx.tier == 'thorough':
+        import witness
+        witness.run(ctx, {'SolarDayGuarded': 'SolarDay fields are private: no value can be built around SolarDay::new', 'ValuesGuarded': 'SolarTime / LunarMonth / SolarYear fields are private',
+                          'RefusalIsAValue': 'SolarDay::new returns a Result the caller must handle'})
     ctx.assumptions.append('AFFINE-LEMMA + JD-MONTH-TABLE: within a month the forward formula is day + const; the inverse is tabulated at both ends of every month; '
                            'an error island strictly inside a month that vanishes at both ends is not excluded')
     ctx.not_decided.append('time-of-day fraction arithmetic of the Julian-day formulas (C12) and per-day exhaustive round trip (refused: 3.65 M point enumeration is a runtime test)')
